@@ -87,7 +87,11 @@ void cmb_resource_terminate(struct cmb_resource *rp)
     cmb_assert_release(rp != NULL);
 
     if (rp->holder != NULL) {
-        resource_drop_holder(&(rp->core), rp->holder);
+        /* The holder must forget it as well, or it will "drop" whoever holds
+         * this resource (or whatever lives at this address) when it ends */
+        struct cmb_process *holder = rp->holder;
+        resource_drop_holder(&(rp->core), holder);
+        (void)cmi_process_remove_holdable(holder, &(rp->core));
     }
 
     cmb_timeseries_terminate(&(rp->history));
